@@ -119,12 +119,25 @@ class heap(object):
         return ptr_page["size"]
 
 
+def _sbpath_elements(elements):
+    """Resolve the '.' and '..' of the path @elements; the root is its own
+    parent, so the result cannot go above the sandbox base directory"""
+    out = []
+    for elt in elements:
+        if elt == '..':
+            if out:
+                out.pop()
+        elif elt and elt != '.':
+            out.append(elt)
+    return out
+
+
 def windows_to_sbpath(path):
     """Convert a Windows path to a valid filename within the sandbox
     base directory.
 
     """
-    path = [elt for elt in path.lower().replace('/', '_').split('\\') if elt]
+    path = _sbpath_elements(path.lower().replace('/', '_').split('\\'))
     return os.path.join(BASE_SB_PATH, *path)
 
 
@@ -133,7 +146,7 @@ def unix_to_sbpath(path):
     base directory.
 
     """
-    path = [elt for elt in path.split('/') if elt]
+    path = _sbpath_elements(path.split('/'))
     return os.path.join(BASE_SB_PATH, *path)
 
 def get_fmt_args(fmt, cur_arg, get_str, get_arg_n):
